@@ -289,10 +289,28 @@ def gen_case(rng):
 	return k, prefix, seqs, aname
 
 
+def failing_call(ctx, ch, rng, k, prefix):
+	"""A call that raises part-way through a collection (after earlier sequences were searched). The statement says nothing about
+	it - what matters is that the NEXT calls in this process are unaffected (state left behind by a failed call)."""
+	ks = ch.kspec(k, prefix)
+	good = (S.upper(prefix) + bytes(rng.choice(b'ACGT') for _ in range(k + 5))) * 3
+	bad = rng.choice(['non-ascii-str', 'not-a-sequence', 'none'])
+	item = {'non-ascii-str': 'ACGT\u00e9ACGT', 'not-a-sequence': 12345, 'none': None}[bad]
+	try:
+		ch.gc.calc_signature(ks, [good, good.lower(), item])
+	except Exception as e:
+		ctx.count('failing_calls_raised')
+		ctx.seen('failing_call_errors', type(e).__name__)
+	else:
+		ctx.count('failing_calls_returned')
+
+
 def _run_classes(sh, ctx, ch):
 	rng = random.Random(f'C01-{ctx.seed}-{sh["sub"]}')
 	for i in range(sh['n']):
 		k, prefix, seqs, aname = gen_case(rng)
+		if i % 7 == 3:
+			failing_call(ctx, ch, rng, k, prefix)   # then the regular, checked case below uses the same k
 		ctx.count(f'alphabet:{aname}')
 		ctx.seen('k_values', k)
 		ctx.seen('prefix_lengths', len(prefix))
@@ -314,7 +332,7 @@ def _run_long(sh, ctx, ch):
 def finalize(merged, tier, seed, inconclusive):
 	c = merged['counters']
 	need = ['calls:bytes/default', 'calls:str/set', 'calls:Seq/array', 'calls:bytearray/default', 'find_kmers_calls',
-	        'cases_match_flush_with_end', 'cases_overlapping_matches', 'cases_with_dropped_nonACGT_kmer', 'cases_both_strands']
+	        'cases_match_flush_with_end', 'cases_overlapping_matches', 'cases_with_dropped_nonACGT_kmer', 'cases_both_strands', 'failing_calls_raised']
 	for n in need:
 		if c.get(n, 0) == 0:
 			inconclusive.append(f'class never observed: {n}')
